@@ -224,6 +224,8 @@ type c20level int32
 var c20GenVarMap = map[string]interface{}{
 	"n_seven": 7, "n_i32": int32(-9), "n_u8": uint8(200), "n_dur": 90*time.Second + 700*time.Millisecond, "n_time": time.Unix(1700000000, 5).UTC(),
 	"b_true": true, "d_one": eval.DNE, "x_level": c20level(3), "x_str": "text", "x_list": []int{1, 2},
+	// names with dotted parts that start with a digit; a whole-number float (not a number for the engine)
+	"n_slot.0": 4, "b_flag.1": false, "n_q.2x": int64(-3), "x_float": float64(250), "x_float2": 2.5,
 }
 
 // c20Value: the value of a variable under the engine's normalisation.
